@@ -598,7 +598,6 @@ def _run_case(ctx, case, loop, measure) -> None:
     conn_l, conn_r = env.conn_l, env.conn_r
     handle_l, handle_r = conn_l.handle, conn_r.handle
     handle_bl, handle_b = env.conn_bl.handle, env.conn_b.handle
-    peer_addr_l = conn_l.peer_address
     if any(case_delays(case)):
         labels.add('delayed')
         for n, d in zip(env.w.nodes, case_delays(case)):
